@@ -57,6 +57,11 @@ def run(tier):
         if r5["fp"] != r7["fp"]:
             f5 = [f for f in (r5.get("fails") or [])]
             f7 = [f for f in (r7.get("fails") or [])]
+            # a deviation from the prescribed tree that both families share does not explain a difference between them
+            k5 = {(x.get("c"), x.get("path")) for x in f5}
+            k7 = {(x.get("c"), x.get("path")) for x in f7}
+            f5 = [x for x in f5 if (x.get("c"), x.get("path")) not in k7] or ([] if f7 else f5)
+            f7 = [x for x in f7 if (x.get("c"), x.get("path")) not in k5]
             f = (f5 + f7 + [{}])[0]
             cls = "structure" if r5["sfp"] != r7["sfp"] else "tokens-or-positions"
             check.violation({"class": "families-differ-" + cls, "kind": f.get("kind"), "detail": f.get("c"), "deviates": "5" if f5 else ("7" if f7 else "?"),
